@@ -158,7 +158,7 @@ fn main() {
     );
     check.assume("connection-level stage: loss-free link, nothing else to send (uncongested), one current_thread runtime per case");
     check.max_shrink_iters = 100;
-    let n = check.pick(300, 20_000);
+    let n = check.pick(600, 20_000);
     check.stage("e2e-datagrams", n, 16, case_strategy, oracle);
     check.finish();
 }
